@@ -121,7 +121,9 @@ func (bd *BlockDownloader) Run(ctx context.Context, interrupt <-chan interface{}
 	simYield("BlockDownloader.Run before start select")
 	select {
 	case <-interrupt:
-		bd.cancelAndWaitForComplete(ctx)
+		if bd.cancelAndWaitForComplete(ctx) {
+			return nil // the block finished while it was being cancelled
+		}
 		return threads.Interrupted
 
 	case <-bd.Started:
@@ -135,7 +137,9 @@ func (bd *BlockDownloader) Run(ctx context.Context, interrupt <-chan interface{}
 		logger.WarnWithFields(ctx, []logger.Field{
 			logger.MillisecondsFromNano("elapsed_ms", time.Since(start).Nanoseconds()),
 		}, "Block request timed out")
-		bd.cancelAndWaitForComplete(ctx)
+		if bd.cancelAndWaitForComplete(ctx) {
+			return nil // the block finished while it was being cancelled
+		}
 		return ErrTimeout
 
 	case err := <-bd.Complete:
@@ -153,7 +157,9 @@ func (bd *BlockDownloader) Run(ctx context.Context, interrupt <-chan interface{}
 	simYield("BlockDownloader.Run before complete select")
 	select {
 	case <-interrupt:
-		bd.cancelAndWaitForComplete(ctx)
+		if bd.cancelAndWaitForComplete(ctx) {
+			return nil // the block finished while it was being cancelled
+		}
 		return threads.Interrupted
 
 	case <-time.After(time.Hour):
@@ -174,7 +180,11 @@ func (bd *BlockDownloader) Run(ctx context.Context, interrupt <-chan interface{}
 	}
 }
 
-func (bd *BlockDownloader) cancelAndWaitForComplete(ctx context.Context) {
+// cancelAndWaitForComplete cancels the download and waits for the handler to finish. It returns true
+// if the handler finished the block successfully anyway, which happens when the block was already
+// being handled when the cancel arrived. The block has been processed then and must not be reported
+// as failed, otherwise it is requested and processed again.
+func (bd *BlockDownloader) cancelAndWaitForComplete(ctx context.Context) bool {
 	bd.Cancel(ctx)
 
 	count := 0
@@ -189,7 +199,7 @@ func (bd *BlockDownloader) cancelAndWaitForComplete(ctx context.Context) {
 					logger.MillisecondsFromNano("elapsed_ms", time.Since(start).Nanoseconds()),
 				}, "Block cancel timed out")
 
-				return
+				return false
 			}
 
 			logger.WarnWithFields(ctx, []logger.Field{
@@ -204,7 +214,7 @@ func (bd *BlockDownloader) cancelAndWaitForComplete(ctx context.Context) {
 				logger.Warn(ctx, "Block download failed : %s", err)
 			}
 
-			return
+			return err == nil
 		}
 	}
 }
